@@ -324,7 +324,9 @@ def hyp_drive(run, st, strategy, oracle, max_examples, seed, to_case=None, shrin
                 return
             if sig in seen:
                 return
-            raise Violation(sig, r[1], r[2] if len(r) > 2 else (to_case(x) if to_case else x))
+            last[0] = Violation(sig, r[1], r[2] if len(r) > 2 else (to_case(x) if to_case else x))
+            raise last[0]
+        last = [None]
         try:
             t()
             return
@@ -332,8 +334,14 @@ def hyp_drive(run, st, strategy, oracle, max_examples, seed, to_case=None, shrin
             seen.add(v.sig)
             st.fail(v.sig, v.detail, v.case)
         except hypothesis.errors.Flaky as e:
-            # the oracle must be deterministic: treat as a harness problem, not a violation
-            raise Inconclusive("flaky oracle under Hypothesis: %s" % e)
+            # Every oracle is a pure function of its case (section 1.2), so a case that failed and passes when Hypothesis runs it
+            # again means the code under test answered differently the second time: its result depends on earlier calls in this
+            # process.  The first answer violated the property; it is reported, with the note that the case alone need not reproduce it.
+            v = last[0]
+            if v is None:
+                raise Inconclusive("flaky under Hypothesis without a recorded failure: %s" % e)
+            seen.add(v.sig)
+            st.fail(v.sig, v.detail + "   [history-dependent: the same case passed when it was run again in this process - hidden state between calls]", v.case)
 
 
 # ---- process pool ----------------------------------------------------------
